@@ -708,7 +708,14 @@ class DateTime(datetime.datetime, Date):
         """
         if isinstance(delta, pendulum.Interval):
             return self.subtract(
-                years=delta.years, months=delta.months, seconds=delta._total
+                years=delta.years,
+                months=delta.months,
+                weeks=delta.weeks,
+                days=delta.remaining_days,
+                hours=delta.hours,
+                minutes=delta.minutes,
+                seconds=delta.remaining_seconds,
+                microseconds=delta.microseconds,
             )
         elif isinstance(delta, pendulum.Duration):
             # Same path as ``self + (-delta)``: days and weeks follow the wall clock
